@@ -52,6 +52,14 @@ fn expected_of(rf: &crate::refdec::RefField) -> V {
     if rf.def.name == "me.status.sub_type" && rf.raw >= 3 {
         return V::S("reserved".into());
     }
+    // enums with a catch-all variant: the named codes decode to their named variant, every other code to the
+    // catch-all carrying the code (projected as 0x100 + code)
+    if rf.def.name == "ca" && (1..=3).contains(&rf.raw) {
+        return V::U(0x100 + rf.raw);
+    }
+    if rf.def.name == "dr" && ![0, 1, 4, 5].contains(&rf.raw) {
+        return V::U(0x100 + rf.raw);
+    }
     if rf.def.name == "me.vel.kind" {
         return V::U(match rf.raw {
             0 => 0,
